@@ -98,6 +98,12 @@ def run_case(seed):
 
     pf = gen.gen_plotfile(rng, max_blocks=2, payload=rng.choice(['ints', 'random', 'special']),
                           nfields=rng.choice([(1, 9), (1, 9), (10, 13)]))   # 10+ fields: the count changes its number of digits
+    r3 = random.Random(seed * 523 + 7)
+    if r3.random() < 0.3:
+        # a field name with a blank or a comma in it (one argv word on the command line)
+        nm = r3.choice(['mixture fraction', 'D(H2,N2)', 'progress variable', 'a, b'])
+        if nm not in pf.fields:
+            pf.fields[r3.randrange(len(pf.fields))] = nm
     keys = c01.reader_keys(pf.fields)
     img = diskimg.image_of(pf)
     path = core.scratch_dir(f"c05_{seed}")
@@ -122,7 +128,24 @@ def run_case(seed):
         count(f"vars={vkind}")
         outp = core.scratch_dir(f"c05_{seed}_out{k}")
         core.set_policy(rng.choice(['identity', 'reverse', 'random']), seed + k)
-        res = core.outcome(lambda: Colander(plotfile=path, limit_level=limit_arg, output=outp, variables=list(variables)).strain())
+        via_cli = r3.random() < 0.4
+        count(f"entry point={'command line' if via_cli else 'library'}")
+        if via_cli:
+            argv = ['colander', path, '-o', outp, '-v'] + list(variables) + (['-l', str(limit_arg)] if limit_arg is not None else [])
+
+            def run_cli():
+                import contextlib, io, sys
+                from amr_kitchen.colander import cli
+                old_argv = sys.argv
+                sys.argv = argv
+                try:
+                    with contextlib.redirect_stdout(io.StringIO()):
+                        cli.main()
+                finally:
+                    sys.argv = old_argv
+            res = core.outcome(run_cli)
+        else:
+            res = core.outcome(lambda: Colander(plotfile=path, limit_level=limit_arg, output=outp, variables=list(variables)).strain())
         core.set_policy('identity', 0)
         out['evals'] += 1
         desc = dict(seed=seed, variables=variables, limit_level=limit_arg, meta=pf.meta, fields=keys)
